@@ -13,7 +13,8 @@
     that are proved: C17_path_deep_merge (collection level of a named call),
     the C06 partial theorems (journal over reloaded levels), C16 (environment),
     and the structural facts below. *)
-From InvokeVerif Require Import Model.SessionModel Spec.C19Spec Corr.C19Corr Proofs.C19_session.
+From InvokeVerif Require Import Model.SessionModel Spec.C19Spec Corr.C19Corr Spec.C17Spec
+     Proofs.C17_path Proofs.C19_session.
 
 (** Only the requested task itself is called by the requested name; its pre-
     and post-tasks, at any depth, are calls without a name ... *)
@@ -42,6 +43,26 @@ Theorem C19_env_reload_keeps_edits : forall fs c e,
   c_defaults c' = c_defaults c /\ c_overrides c' = c_overrides c.
 Proof. exact load_shell_env_effect. Qed.
 
+(** Proved form of "each task sees the collection-level settings of its own
+    namespace path", for DIRECTLY REQUESTED calls, every tree and every name,
+    alias or default shortcut: the collection level loaded before the body is,
+    setting by setting, the value of the outermost collection on the task's own
+    path that defines it (C17), it replaces whatever the previous task had
+    there, and the session's modifications and deletions are kept.
+    Guard = the call carries its name (pre/post/default-task calls do not:
+    F-C19) -- and this is the collection LEVEL, not yet the view: the
+    environment level loaded next may still carry a previous task's setting
+    (F-C19b). *)
+Theorem C19_named_call_gets_own_path_settings_partial : forall ns fs c0 n t cfgs,
+  ns_wf ns = true -> ns_canon ns = true ->
+  ref_path ns (segs_of n) = Some (t, cfgs) -> all_compatible cfgs = true ->
+  exists d,
+    configuration ns n = Ok d /\
+    (forall p, leaf_at p (Node d) = first_some (map (fun g => leaf_at p (Node g)) cfgs)) /\
+    let c1 := fst (step fs c0 (LoadCollection (Node d))) in
+    c_collection c1 = Node d /\ c_mods c1 = c_mods c0 /\ c_dels c1 = c_dels c0.
+Proof. exact named_call_level. Qed.
+
 (** F-C19: a pre-task living in sub-collection [a] does not see [a]'s
     settings (it gets the root collection's only); requested by name it does. *)
 Theorem C19_task_view_refuted_hook :
@@ -56,9 +77,9 @@ Proof. exact refuted_hook. Qed.
 (** F-C19 again: the implicitly chosen default task of a default sub-collection. *)
 Theorem C19_task_view_refuted_default_task :
   exists c, build ns_script_d = Ok c /\
-    spec_ok c (Node []) (Node []) (fun _ => []) [[]]
+    C19Spec.spec_ok c (Node []) (Node []) (fun _ => []) [[]]
             (session c (mkInit (Node []) (Node []) None None false) [] [] (Some (leaf_call 1)) true [[]]) = false /\
-    spec_ok c (Node []) (Node []) (fun _ => []) [[]]
+    C19Spec.spec_ok c (Node []) (Node []) (fun _ => []) [[]]
             (session c (mkInit (Node []) (Node []) None None false) [] [("a", leaf_call 1)] None true [[]]) = true.
 Proof. exact refuted_default_task. Qed.
 
@@ -69,12 +90,12 @@ Theorem C19_task_view_refuted_stale_env :
   exists c, build ns_script_e = Ok c /\
     let i := mkInit (Node []) (Node []) None None false in
     let reqs := [("sub.first", leaf_call 1); ("second", leaf_call 2)] in
-    spec_ok c (Node []) (Node []) (fun _ => []) [[("INVOKE_K_A", "5")]]
+    C19Spec.spec_ok c (Node []) (Node []) (fun _ => []) [[("INVOKE_K_A", "5")]]
             (session c i [] reqs None true [[("INVOKE_K_A", "5")]]) = false /\
     (exists v1 v2, session c i [] reqs None true [[("INVOKE_K_A", "5")]]
                    = Ok ([(1, v1, [], v1); (2, v2, [], v2)], None) /\
                    leaf_at ["k"; "a"] (Node v2) = Some (VInt 5)) /\
-    spec_ok c (Node []) (Node []) (fun _ => []) [[]] (session c i [] reqs None true [[]]) = true.
+    C19Spec.spec_ok c (Node []) (Node []) (fun _ => []) [[]] (session c i [] reqs None true [[]]) = true.
 Proof. exact refuted_stale_env. Qed.
 
 (** Inside the guard (direct requests; environment variables naming settings
